@@ -84,7 +84,7 @@ static void chunk_ops(vdrv::Scenario &s, const std::string &rq, const std::strin
 struct Input { std::string label; vdrv::Scenario scn; };
 static Input gen_input() {
     Input in; vdrv::Scenario &s = in.scn; s.cfg.personality = rcx::range(0, 9); s.cfg.auto_destroy = rcx::coin(); s.cfg.req_decomp = rcx::coin();
-    int k = rcx::range(0, 7);
+    int k = rcx::range(0, 9);
     if (k == 0 || k == 1) { // generated exchanges: cookies, Basic/Digest auth, folding, repetition, chunked with trailers, 100-continue, pipelining
         hg::Opts o; o.max_pairs = 3; hg::Exchange x = hg::gen_exchange(o); chunk_ops(s, x.req_wire(), x.res_wire()); in.label = "generated_exchange";
     } else if (k == 2) { // multipart with file parts, extraction on/off
@@ -110,6 +110,32 @@ static Input gen_input() {
         bool ok = rcx::coin(); std::string rq = "CONNECT tunnel.example:443 HTTP/1.1\r\nHost: tunnel.example:443\r\n\r\n" + std::string(ok ? "\x16\x03\x01\x00\x05hello\n" : "GET http://user:pw@h.example:81/a/../b?q#f HTTP/1.1\r\nHost: h.example:81\r\n\r\n");
         std::string rs = ok ? std::string("HTTP/1.1 200 Connection established\r\n\r\n") : std::string("HTTP/1.1 407 Proxy Authentication Required\r\nContent-Length: 0\r\n\r\nHTTP/1.1 200 OK\r\nContent-Length: 1\r\n\r\nx");
         chunk_ops(s, rq, rs); in.label = ok ? "connect_tunnel" : "connect_refused_then_http";
+    } else if (k == 8 || k == 9) { // container growth: every list/table/builder that starts small is pushed past its initial capacity, so that
+        // the reallocation inside the push is one of the allocations that fail (seeded change C18-7)
+        int shape = rcx::range(0, 5); std::string rq, rs = "HTTP/1.1 200 OK\r\nContent-Length: 0\r\n\r\n";
+        if (shape == 0) { // more header fields than the header tables start with, both directions
+            int n = rcx::range(33, 80); rq = "GET /many HTTP/1.1\r\nHost: h.example\r\n"; for (int i = 0; i < n; i++) rq += "X-H" + std::to_string(i) + ": v" + std::to_string(i) + "\r\n"; rq += "\r\n";
+            int m = rcx::range(33, 80); rs = "HTTP/1.1 200 OK\r\n"; for (int i = 0; i < m; i++) rs += "X-R" + std::to_string(i) + ": w\r\n"; rs += "Content-Length: 0\r\n\r\n"; in.label = "growth_header_tables";
+        } else if (shape == 1) { // more transactions than the connection's list starts with
+            int n = rcx::range(17, 40); rs.clear(); for (int i = 0; i < n; i++) { rq += "GET /p" + std::to_string(i) + " HTTP/1.1\r\nHost: h.example\r\n\r\n"; rs += "HTTP/1.1 200 OK\r\nContent-Length: 1\r\n\r\nx"; } s.cfg.auto_destroy = 0; in.label = "growth_transaction_list";
+        } else if (shape == 2) { // more parameters and cookies than their tables start with
+            int n = rcx::range(33, 90); std::string q, body, ck; for (int i = 0; i < n; i++) { q += (i ? "&" : "") + std::string("q") + std::to_string(i) + "=" + std::to_string(i); body += (i ? "&" : "") + std::string("b") + std::to_string(i) + "=x"; ck += (i ? "; " : "") + std::string("c") + std::to_string(i) + "=y"; }
+            rq = "POST /params?" + q + " HTTP/1.1\r\nHost: h.example\r\nCookie: " + ck + "\r\nContent-Type: application/x-www-form-urlencoded\r\nContent-Length: " + std::to_string(body.size()) + "\r\n\r\n" + body; in.label = "growth_param_and_cookie_tables";
+        } else if (shape == 3) { // more multipart parts than the part list starts with; a part with many header lines
+            s.cfg.extract = rcx::chance(1, 4); std::string b = "gb" + std::to_string(rcx::range(0, 9)), body; int n = rcx::range(17, 70);
+            for (int i = 0; i < n; i++) { body += "--" + b + "\r\nContent-Disposition: form-data; name=\"p" + std::to_string(i) + "\"" + (i % 9 == 4 ? "; filename=\"f.bin\"" : "") + "\r\n"; if (i == 3) for (int j = 0; j < 40; j++) body += "X-Part-H" + std::to_string(j) + ": z\r\n"; body += "\r\nv" + std::to_string(i) + "\r\n"; }
+            body += "--" + b + "--\r\n";
+            rq = "POST /parts HTTP/1.1\r\nHost: h.example\r\nContent-Type: multipart/form-data; boundary=" + b + "\r\nContent-Length: " + std::to_string(body.size()) + "\r\n\r\n" + body; in.label = "growth_multipart_part_list";
+        } else if (shape == 4) { // more log records than the connection's message list starts with
+            int n = rcx::range(9, 40); rq = "GET /log HTTP/1.1\r\nHost: h.example\r\n"; for (int i = 0; i < n; i++) rq += (i % 3 == 0 ? "no colon here " : i % 3 == 1 ? ": empty name " : "X-Nul" + std::string(1, '\0') + ": ") + std::to_string(i) + "\r\n"; rq += "\r\n";
+            rs = "HTTP/1.1 200 OK\r\n"; for (int i = 0; i < n; i++) rs += "bad line " + std::to_string(i) + "\r\n"; rs += "Content-Length: 0\r\n\r\n"; in.label = "growth_log_list";
+        } else { // one urlencoded field / one multipart line / one header line delivered in many pieces (builder lists, line buffers)
+            std::string v((size_t)rcx::range(40, 200), 'v'); std::string body = "name=" + v + "&k2=" + v;
+            rq = "POST /pieces HTTP/1.1\r\nHost: h.example\r\nX-Long: " + v + "\r\n folded " + v + "\r\nContent-Type: application/x-www-form-urlencoded\r\nContent-Length: " + std::to_string(body.size()) + "\r\n\r\n" + body;
+            size_t step = (size_t)rcx::range(1, 4); for (size_t i = 0; i < rq.size(); i += step) s.ops.push_back(vdrv::Op{'>', rq.substr(i, step), 0});
+            s.ops.push_back(vdrv::Op{'<', rs, 0}); s.ops.push_back(vdrv::Op{'C', "", 0}); s.handover = 1; in.label = "growth_piece_builders"; rq.clear();
+        }
+        if (!rq.empty()) chunk_ops(s, rq, rs);
     } else { // malformed and limit-related: long folded headers, invalid chunk length, NUL bytes, missing protocol
         std::string rq = "GET /a%zz/%2e%2e/b\\c?x=%u00e9 HTTP/1.1\r\nHost: h.example\r\nX-Long: " + std::string((size_t)rcx::range(100, 4000), 'x') + "\r\n continued\r\n\tmore\r\nX-Nul: a" + std::string(1, '\0') + "b\r\nContent-Length: 3\r\nContent-Length: 3\r\n\r\nabcGET /second\r\n";
         std::string rs = "HTTP/1.1 200 OK\r\nTransfer-Encoding: chunked\r\n\r\n2\r\nab\r\nzz\r\nrest of the stream";
